@@ -119,10 +119,11 @@ def layout_handler_semicolon_optional(dispatcher, node, before, after, prev):
 def layout_handler_semicolon_openbrace(dispatcher, node, before, after, prev):
     # a semicolon in front of a block is never optional: automatic
     # semicolon insertion does not restore it before a '{'.
-    for chunk in layout_handler_semicolon(
+    # the node is the one of the block.
+    yield StreamFragment(';', 0, 0, None, None)
+    for chunk in layout_handler_openbrace(
             dispatcher, node, before, after, prev):
         yield chunk
-    yield StreamFragment('{', 0, 0, None, None)
 
 
 def layout_handler_openbrace(dispatcher, node, before, after, prev):
